@@ -133,6 +133,77 @@ fn main() {
         }
         return;
     }
+    if cmd == "sibsearch" {
+        // vcheck sibsearch <set> <millions>: search c~ values whose SampleInBall run is extreme (longest run of
+        // consecutive rejections; most rejections in total). Depends only on SHAKE256 and tau.
+        use rayon::prelude::*;
+        use sha3::digest::{ExtendableOutput, Update, XofReader};
+        let p = refmodel::params(args[2].parse().expect("set"));
+        let millions: u64 = args[3].parse().expect("millions");
+        let cl = p.ctilde_len();
+        let eval = |i: u64| -> (u32, u32, Vec<u8>) {
+            let mut c = vec![0u8; cl];
+            for (k, b) in c.iter_mut().enumerate() {
+                *b = (i.wrapping_mul(0x9E37_79B9_7F4A_7C15).rotate_left((k as u32 * 7) % 64) >> ((k % 8) * 8)) as u8 ^ (k as u8).wrapping_mul(31);
+            }
+            c[..8].copy_from_slice(&i.to_le_bytes());
+            let mut sh = sha3::Shake256::default();
+            sh.update(&c);
+            let mut rd = sh.finalize_xof();
+            let mut buf = [0u8; 8 + 1024];
+            rd.read(&mut buf);
+            let (mut pos, mut maxrun, mut total) = (8usize, 0u32, 0u32);
+            for idx in (256 - p.tau)..=255 {
+                let mut run = 0u32;
+                loop {
+                    if pos >= buf.len() {
+                        return (0, 0, c); // practically unreachable; ignore
+                    }
+                    let j = buf[pos] as usize;
+                    pos += 1;
+                    if j > idx {
+                        run += 1;
+                        total += 1;
+                    } else {
+                        break;
+                    }
+                }
+                maxrun = maxrun.max(run);
+            }
+            (maxrun, total, c)
+        };
+        let n = millions * 1_000_000;
+        let chunks = 4096u64;
+        let per = n / chunks;
+        let mut best: Vec<(u32, u32, Vec<u8>)> = (0..chunks)
+            .into_par_iter()
+            .flat_map_iter(|ch| {
+                let mut top_run: Vec<(u32, u32, Vec<u8>)> = Vec::new();
+                let mut top_tot: Vec<(u32, u32, Vec<u8>)> = Vec::new();
+                for i in ch * per..(ch + 1) * per {
+                    let e = eval(i);
+                    if top_run.len() < 2 || e.0 > top_run.last().unwrap().0 {
+                        top_run.push(e.clone());
+                        top_run.sort_by(|a, b| b.0.cmp(&a.0));
+                        top_run.truncate(2);
+                    }
+                    if top_tot.len() < 2 || e.1 > top_tot.last().unwrap().1 {
+                        top_tot.push(e);
+                        top_tot.sort_by(|a, b| b.1.cmp(&a.1));
+                        top_tot.truncate(2);
+                    }
+                }
+                top_run.into_iter().chain(top_tot)
+            })
+            .collect();
+        best.sort_by(|a, b| b.0.cmp(&a.0));
+        let mut out: Vec<serde_json::Value> = best.iter().take(6).map(|e| serde_json::json!({"set": p.id, "max_consecutive_rejections": e.0, "total_rejections": e.1, "c_tilde": hex::encode(&e.2)})).collect();
+        best.sort_by(|a, b| b.1.cmp(&a.1));
+        out.extend(best.iter().take(6).map(|e| serde_json::json!({"set": p.id, "max_consecutive_rejections": e.0, "total_rejections": e.1, "c_tilde": hex::encode(&e.2)})));
+        println!("{}", serde_json::to_string_pretty(&out).expect("json"));
+        eprintln!("searched {n} candidates in {:.0}s", t0.elapsed().as_secs_f64());
+        return;
+    }
     if cmd == "constants" {
         for c in fips204_verif::gen::source_constants() {
             println!("{}", hex::encode(c));
